@@ -122,6 +122,7 @@ async def _run_async_call(
         abort_if=abort_if,
     )
     attempt_timeout_s = policy.attempt_timeout_s
+    attempt = 0
 
     for attempt in range(1, policy.max_attempts + 1):
         attempt_state = AttemptState()
@@ -231,7 +232,7 @@ async def _run_async_call(
             last_result=state.last_result,
         )
 
-    raise_exhausted_call(state, policy)
+    raise_exhausted_call(state, policy, attempts=attempt)
 
 
 async def _run_async_execute(
